@@ -372,7 +372,7 @@ class A_Seq(Adapter):
         return f_seq(self.seq()[int(p[0])])
 
     def rand_point(self, rng, l):
-        n = self.spec.get("n", 12)
+        n = len(l.sequence)         # (children of a BalancingLearner may be shorter prefixes of the configured sequence)
         todo = [i for i in range(n) if i not in l.data and i not in l.pending_points]
         if not todo:
             return None
@@ -392,7 +392,8 @@ class A_Int(Adapter):
 
     def make(self):
         from adaptive import IntegratorLearner
-        return IntegratorLearner(f_int, (0.0, 1.0), tol=self.spec.get("tol", 1e-6))
+        lo, hi = self.spec.get("bounds", (0.0, 1.0))     # a very narrow domain: requests soon fail ("No way to improve")
+        return IntegratorLearner(f_int, (float(lo), float(hi)), tol=self.spec.get("tol", 1e-6))
 
     def point(self, p):
         return float(p)
@@ -439,6 +440,12 @@ class A_Bal(Adapter):
     def make(self):
         from adaptive import BalancingLearner
         kids = [self.child.make() for _ in range(self.spec.get("nchild", 2))]
+        if self.spec.get("child_ns"):
+            # SequenceLearner children of UNEQUAL length (prefixes of the configured sequence): a request larger than what the
+            # short ones can serve fails half-way, after points were handed out
+            from adaptive import SequenceLearner
+            seq = self.child.seq()
+            kids = [SequenceLearner(f_seq, seq[:k]) for k in self.spec["child_ns"]]
         return BalancingLearner(kids, strategy=self.spec.get("strategy", "loss_improvements"))
 
     def point(self, p):
